@@ -5,8 +5,8 @@ package main
 
 import (
 	"bufio"
-	"context"
 	"bytes"
+	"context"
 	"encoding/base64"
 	"encoding/binary"
 	"encoding/json"
